@@ -89,7 +89,7 @@ CHECKS = {
    design="3/C11"),
  "C02": dict(
    level="model_checking",
-   text="IR is built natively by go/ir from /repo for a hand-written corpus (~230 functions), a bounded-exhaustive family of generated programs (escapes, loops, break/continue/goto, early returns), 400 (thorough 3000) sampled goto-built CFGs and selected repository packages, "
+   text="IR is built natively by go/ir from /repo for a hand-written corpus (~230 functions), a bounded-exhaustive family of generated programs (escapes, loops, break/continue/goto, early returns), 200 (thorough 3000) sampled goto-built CFGs and selected repository packages, "
         "in 5 builder modes. Per function (<= 24 blocks quick, 60 thorough): dominance is decided by bounded path-existence SMT queries for every ordered block pair, def-dominates-use (incl. phi edges at the end of the "
         "predecessor) is read off that relation; operand/result typing is decided by the solver's sort checker over an encoding with one sort per Go type and one typed function per instruction rule (arithmetic, comparison, load/store, phi, return, field, index, map lookup/update, send, extract, closure bindings, calls), further documented rules are checked directly (MakeSlice, Slice, ChangeType, MakeInterface, TypeAssert, Alloc); "
         "terminator/phi-arity/pred-succ/operand-referrer clauses are checked as preconditions of the encoding.",
@@ -102,7 +102,7 @@ CHECKS = {
    text="go/ir builds IR natively (naive, lifted, each with and without debug refs) for a hand-written corpus and a bounded-exhaustive family of generated programs; every function's IR is rendered back into Go "
         "according to the documented meaning of each instruction (labelled blocks, one variable per value, parallel phi copies on edges) and executed by the symbolic engine next to the source function "
         "on the same symbolic inputs: results, panic/no-panic outcome, stores through pointer arguments and the trace of opaque calls must agree on every path (solver-decided assertions).",
-   note="Programs: ~230 corpus functions + ~1700 generated (quick) functions (incl. 400 sampled goto-built CFGs with a fuel counter), not all programs. The recover block is rendered as code (the body runs in an inner closure; a panic raised while deferred calls run is detected by probes), not left to Go's own recovery. Reference for the source semantics is x/tools go/ssa in the same engine; counterexamples are replayed with gc-compiled code. "
+   note="Programs: ~230 corpus functions + ~1700 generated (quick) functions (incl. 200 sampled goto-built CFGs with a fuel counter), not all programs. The recover block is rendered as code (the body runs in an inner closure; a panic raised while deferred calls run is detected by probes), not left to Go's own recovery. Reference for the source semantics is x/tools go/ssa in the same engine; counterexamples are replayed with gc-compiled code. "
         "Compositional (callees as in source). Loop-bound parameters restricted to -1..4, strings ASCII <= 2 bytes, slices <= 2 elements. Outside: goroutines, channels, select, map iteration, floats, unsafe; defers inside range-over-func bodies; method values/expressions; methods as subjects.",
    technique="translation validation: IR rendered to Go + bounded symbolic execution (go/ssa) + SMT, native replay",
    design="3/C01"),
